@@ -319,6 +319,7 @@ func init() {
 			}
 		}
 		c11BatchAndParams(c)
+		c11BufferOwnership(c)
 	})
 }
 
@@ -417,4 +418,109 @@ func dependsOn(v, target ssa.Value, seen map[ssa.Value]bool) bool {
 		return dependsOn(x.X, target, seen)
 	}
 	return false
+}
+
+// c11BufferOwnership: bytes handed across the server's boundaries are owned by the receiver only for the call:
+// (no-retain) an io.Writer implementation of the package never stores (a slice of) the caller's buffer — the parse-error
+// window sits behind a TeeReader, so retaining `p` aliases the JSON decoder's internal buffer and later window writes
+// overwrite request bytes the decoder has not unmarshalled yet; (no-pooled-escape) a function never returns bytes of a
+// buffer it has put (or defers putting) back into a sync.Pool — the next request would re-encode over a response that the
+// transport is still writing.
+func c11BufferOwnership(c *Ctx) {
+	p := c.P
+	nW, nR := 0, 0
+	for _, fn := range p.sortedFuncs() {
+		if pkgRelOf(fn) != "jsonrpc" || fn.Origin() != nil || strings.HasSuffix(p.Pos(fnPos(fn)), "_test.go") {
+			continue
+		}
+		// --- no-retain: methods Write([]byte) (int, error)
+		if fn.Name() == "Write" && fn.Signature.Recv() != nil && len(fn.Params) == 2 && fn.Params[1].Type().String() == "[]byte" || strings.HasPrefix(fn.Name(), "zzVerifFixtureC11Write") {
+			nW++
+			par := fn.Params[len(fn.Params)-1]
+			bad := ""
+			var derived func(v ssa.Value, d int) bool
+			derived = func(v ssa.Value, d int) bool {
+				if d > 4 {
+					return false
+				}
+				if v == ssa.Value(par) {
+					return true
+				}
+				if sl, ok := v.(*ssa.Slice); ok {
+					return derived(sl.X, d+1)
+				}
+				if ph, ok := v.(*ssa.Phi); ok {
+					for _, e := range ph.Edges {
+						if derived(e, d+1) {
+							return true
+						}
+					}
+				}
+				return false
+			}
+			allInstrs(fn, func(in ssa.Instruction) {
+				if st, ok := in.(*ssa.Store); ok {
+					if _, isField := st.Addr.(*ssa.FieldAddr); isField && derived(st.Val, 0) {
+						bad = p.Pos(posOf(in, fn))
+					}
+				}
+			})
+			c.check(bad == "", "no-retain", qname(fn), p.Pos(fnPos(fn)), "the caller's buffer is copied, never stored", "Write stores a slice of its argument in a field ("+bad+"): the writer keeps aliasing the caller's buffer (here the JSON decoder's read buffer) and later writes through the retained slice corrupt request bytes that are still being parsed")
+		}
+		// --- no-pooled-escape
+		var pooled []ssa.Value // buffers put (or deferred) into a sync.Pool in this function
+		for _, s := range sitesOf(fn) {
+			if strings.HasSuffix(s.CalleeName(), "sync.Pool).Put") && len(s.Args()) == 2 {
+				pooled = append(pooled, stripIface(s.Args()[1]))
+			}
+		}
+		if len(pooled) == 0 {
+			continue
+		}
+		nR++
+		bad := ""
+		var fromPooled func(v ssa.Value, d int) bool
+		fromPooled = func(v ssa.Value, d int) bool {
+			if d > 5 {
+				return false
+			}
+			switch x := v.(type) {
+			case *ssa.Slice:
+				return fromPooled(x.X, d+1)
+			case *ssa.Phi:
+				for _, e := range x.Edges {
+					if fromPooled(e, d+1) {
+						return true
+					}
+				}
+			case *ssa.Call:
+				cal := x.Call.StaticCallee()
+				if cal != nil && cal.Name() == "Bytes" && len(x.Call.Args) > 0 {
+					for _, pb := range pooled {
+						if sameVal(x.Call.Args[0], pb) || stripIface(x.Call.Args[0]) == pb {
+							return true
+						}
+					}
+				}
+				// bytes.TrimSuffix / TrimSpace etc. return sub-slices of their first argument
+				if cal != nil && cal.Pkg != nil && cal.Pkg.Pkg.Path() == "bytes" && strings.HasPrefix(cal.Name(), "Trim") && len(x.Call.Args) > 0 {
+					return fromPooled(x.Call.Args[0], d+1)
+				}
+			}
+			return false
+		}
+		for _, ret := range returnsOf(fn) {
+			for _, r := range ret.Results {
+				if fromPooled(r, 0) {
+					bad = p.Pos(posOf(ret.Ret, fn))
+				}
+			}
+		}
+		c.check(bad == "", "no-pooled-escape", qname(fn), p.Pos(fnPos(fn)), "no returned slice aliases a buffer that goes back to a pool", "the function returns bytes of a buffer it puts back into a sync.Pool ("+bad+"): a request served before the transport has written those bytes re-encodes over them, and clients receive another request's id or result")
+	}
+	if nW < 1 {
+		c.und("no-retain", "jsonrpc writers", "", "no io.Writer implementation found in package jsonrpc")
+	}
+	c.needFixture("no-retain")
+	c.needFixture("no-pooled-escape")
 }
